@@ -7,12 +7,17 @@ From TT Require Import Lib.Base Lib.Sort Model.Reactor Model.Spinner.
 
 (* one run() on the one spinner of the history *)
 Record runspec := mkRun {
+  r_other : bool;          (* a re-entrant call made by the function goes through ANOTHER Spinner on the same reactor *)
   r_clear : bool;          (* clear_junk() is called first *)
   r_pre : list nat;        (* handlers installed for SIGINT, SIGTERM, SIGCHLD before the call *)
   r_timeout : time;
   r_fn : fn
 }.
-Record input := mkInput { i_oracle : list nat; i_runs : list runspec }.
+Record input := mkInput {
+  i_oracle : list nat;     (* tie-break choices of the reactor *)
+  i_batch : bool;          (* the reactor runs every call due at the same instant in one iteration *)
+  i_runs : list runspec
+}.
 
 Definition wf_run (rs : runspec) : Prop := length (r_pre rs) = length reactor_signals.
 Definition wf (i : input) : Prop := Forall wf_run (i_runs i).
@@ -22,6 +27,7 @@ Record robs := mkObs {
   o_res : res value exc;   (* what run() returned / the class of what it raised *)
   o_reentry : option bool; (* Some b: the function called run() again; b = that call raised ReentryError *)
   o_ran : list nat;        (* the function's delayed calls that ran (tokens, sorted) *)
+  o_order : list nat;      (* every delayed call that ran, in the order the reactor ran them (0 = the timeout call) *)
   o_junk : list nat;       (* get_junk() afterwards (tokens, sorted) *)
   o_running : bool;        (* reactor.running *)
   o_pending : nat;         (* len(reactor.getDelayedCalls()) *)
@@ -52,13 +58,35 @@ Definition events (T : time) (f : fn) : list (time * res value exc) :=
 Definition earliest (evs : list (time * res value exc)) : time :=
   fold_right (fun ev m => Nat.min (fst ev) m) (fst (hd (0, Raised EOther) evs)) evs.
 
-(* "exactly as the timing dictates": a synchronous result is the result; otherwise the
-   earliest of Deferred / timeout / stop request decides, and simultaneous ones may go either way *)
-Definition allowed (T : time) (f : fn) (r : res value exc) : bool :=
+(* the calls that can end the run: 0 the timeout call, 1 the call firing the Deferred, 2 the stop request *)
+Definition crash_toks (order : list nat) : list nat := filter (fun t => Nat.leb t 2) order.
+Definition has (t : nat) (l : list nat) : bool := existsb (Nat.eqb t) l.
+Definition ev_time (T : time) (f : fn) (tok : nat) : option time :=
+  match tok with
+  | 0 => Some T
+  | 1 => match f_shape f with Later t _ => Some t | _ => None end
+  | 2 => f_stop f
+  | _ => None
+  end.
+(* what run() must report, given which of them have run: TimeoutError once the timeout call has run (the
+   Deferred had not fired by then, or the call would have been cancelled); else the Deferred's own result
+   if it fired; else NoResultError (the reactor was stopped) *)
+Definition decided (f : fn) (E : list nat) : res value exc :=
+  if has 0 E then Raised ETimeout
+  else if has 1 E then match f_shape f with Later _ o => result_of o | _ => Raised EOther end
+  else Raised ENoResult.
+
+(* "exactly as the timing dictates": a synchronous result is the result; otherwise at least one of the three
+   ran, whatever ran was due at the earliest of their instants (simultaneous ones in either order, as the
+   reactor chose), and the result is the one that decides *)
+Definition allowed (T : time) (f : fn) (order : list nat) (r : res value exc) : bool :=
   match f_shape f with
   | Sync _ o => result_eqb r (result_of o)
   | _ => if f_stop_now f then result_eqb r (Raised ENoResult)
-         else existsb (fun ev => Nat.eqb (fst ev) (earliest (events T f)) && result_eqb (snd ev) r) (events T f)
+         else let E := crash_toks order in
+              negb (Nat.eqb (length E) 0)
+              && forallb (fun k => option_eqb Nat.eqb (ev_time T f k) (Some (earliest (events T f)))) E
+              && result_eqb r (decided f E)
   end.
 
 (* everything the function left with the reactor *)
@@ -84,9 +112,11 @@ Definition run_okb (stale : list nat) (rs : runspec) (o : robs) : bool :=
   match stale with
   | _ :: _ =>   (* refuses to run: nothing happens *)
       result_eqb (o_res o) (Raised EStaleJunk) && list_eqb Nat.eqb (o_junk o) stale
-      && list_eqb Nat.eqb (o_ran o) [] && option_eqb Bool.eqb (o_reentry o) None
+      && list_eqb Nat.eqb (o_ran o) [] && list_eqb Nat.eqb (o_order o) []
+      && option_eqb Bool.eqb (o_reentry o) None
   | [] =>
-      allowed (r_timeout rs) (r_fn rs) (o_res o)
+      allowed (r_timeout rs) (r_fn rs) (o_order o) (o_res o)
+      && list_eqb Nat.eqb (o_ran o) (isort Nat.leb (filter not_timeout_tok (o_order o)))
       && option_eqb Bool.eqb (o_reentry o) (if f_reenter (r_fn rs) then Some true else None)
       (* every leftover of the function either ran or is reported as junk, once *)
       && perm_eqb (o_ran o ++ filter not_timeout_tok (o_junk o)) (sched_tokens (r_fn rs))
@@ -103,11 +133,15 @@ Fixpoint runs_okb (prev_junk : list nat) (rss : list runspec) (os : obs) : bool 
 Definition spec_okb (i : input) (o : obs) : bool := runs_okb [] (i_runs i) o.
 
 (* ---- readable form ---- *)
-Definition Allowed (T : time) (f : fn) (r : res value exc) : Prop :=
+Definition Allowed (T : time) (f : fn) (order : list nat) (r : res value exc) : Prop :=
   match f_shape f with
   | Sync _ o => r = result_of o
   | _ => if f_stop_now f then r = Raised ENoResult
-         else exists t, In (t, r) (events T f) /\ forall ev, In ev (events T f) -> t <= fst ev
+         else let E := crash_toks order in
+              E <> []
+              /\ (forall k, In k E -> exists t, ev_time T f k = Some t /\ In t (map fst (events T f))
+                                               /\ forall ev, In ev (events T f) -> t <= fst ev)
+              /\ r = decided f E
   end.
 
 Definition Clean (rs : runspec) (o : robs) : Prop :=
@@ -116,8 +150,9 @@ Definition Clean (rs : runspec) (o : robs) : Prop :=
 Definition Run_spec (stale : list nat) (rs : runspec) (o : robs) : Prop :=
   Clean rs o /\
   match stale with
-  | _ :: _ => o_res o = Raised EStaleJunk /\ o_junk o = stale /\ o_ran o = [] /\ o_reentry o = None
-  | [] => Allowed (r_timeout rs) (r_fn rs) (o_res o)
+  | _ :: _ => o_res o = Raised EStaleJunk /\ o_junk o = stale /\ o_ran o = [] /\ o_order o = [] /\ o_reentry o = None
+  | [] => Allowed (r_timeout rs) (r_fn rs) (o_order o) (o_res o)
+          /\ o_ran o = isort Nat.leb (filter not_timeout_tok (o_order o))
           /\ o_reentry o = (if f_reenter (r_fn rs) then Some true else None)
           /\ (forall t, count (o_ran o ++ filter not_timeout_tok (o_junk o)) t = count (sched_tokens (r_fn rs)) t)
   end.
